@@ -37,6 +37,7 @@ type fn struct {
 
 	tmp        int
 	nilCmp     map[string]bool
+	idxLast    map[string]token.Pos // the position of the last index write to a name
 	idxWritten map[string]bool
 	fldWritten map[string]bool
 	loops      [][]string // carried variables of the enclosing loops, innermost last
@@ -160,6 +161,7 @@ func (f *fn) translate() {
 		case *ast.FuncLit:
 			f.fail(n, "function literal")
 		case *ast.GoStmt, *ast.DeferStmt, *ast.SelectStmt, *ast.SwitchStmt, *ast.TypeSwitchStmt, *ast.LabeledStmt, *ast.SendStmt:
+			// (a switch without `fallthrough` / `break` has been rewritten into an if-chain by desugar.go)
 			f.fail(n, "statement outside the subset (%T)", n)
 		}
 		return true
@@ -307,6 +309,12 @@ func (f *fn) noteWrite(l ast.Expr) {
 	case *ast.IndexExpr:
 		if id, ok := unparen(l.X).(*ast.Ident); ok {
 			f.idxWritten[id.Name] = true
+			if f.idxLast == nil {
+				f.idxLast = map[string]token.Pos{}
+			}
+			if l.Pos() > f.idxLast[id.Name] {
+				f.idxLast[id.Name] = l.Pos()
+			}
 		} else {
 			f.fail(l, "indexed assignment to something that is not a variable")
 		}
@@ -747,6 +755,25 @@ func (f *fn) assign(s *ast.AssignStmt, e *env, ind int) string {
 		b.WriteString(f.emitBinds(v.binds, ind))
 		for i, l := range s.Lhs {
 			id, ok := l.(*ast.Ident)
+			if ix, isIx := unparen(l).(*ast.IndexExpr); isIx && s.Tok == token.ASSIGN {
+				// xs[i], … = f(…): the index operands are evaluated before the call (they must be free of panics and of
+				// anything the call could change: plain int expressions), the elements are assigned left to right afterwards
+				xid, ok := unparen(ix.X).(*ast.Ident)
+				if !ok {
+					f.fail(s, "indexed assignment outside the subset")
+				}
+				old, ok := e.vars[xid.Name]
+				if !ok || old.t.k != kSlice || old.t.opt {
+					f.fail(s, "indexed assignment to %s, which is not a (non-nil-able) slice variable", xid.Name)
+				}
+				iv := f.expr(ix.Index, e, tInt)
+				if iv.t.k != kInt || len(iv.binds) > 0 {
+					f.fail(ix.Index, "index of a multi-valued assignment is not a panic-free int expression")
+				}
+				text := f.coerce(s, proj(v.text, i, len(s.Lhs)), v.t.parts[i], old.t.elem)
+				b.WriteString(ln(ind, fmt.Sprintf("let %s ← setIdx %s %s %s", leanIdent(xid.Name), leanIdent(xid.Name), atomV(iv.text), atomV(text))))
+				continue
+			}
 			if !ok {
 				f.fail(s, "multi-valued assignment to something that is not a variable")
 			}
@@ -887,6 +914,11 @@ func (f *fn) aliasCheck(lhsName string, rhs ast.Expr, e *env) {
 	if !ok || !v.t.isSliceLike() {
 		return
 	}
+	if lhsName == "" && len(f.loops) == 0 && f.idxWritten[name] && f.idxLast[name] < rhs.Pos() {
+		// `p.F = xs` after the last index write to xs, outside every loop: xs is finished (built element by element, then stored);
+		// the field is never written by index (field assignments only replace the whole slice)
+		return
+	}
 	if f.idxWritten[name] || (lhsName != "" && f.idxWritten[lhsName]) {
 		f.fail(rhs, "slice %s gets a second name while one of them is written by index (aliasing)", name)
 	}
@@ -1002,6 +1034,34 @@ func (f *fn) ifStmt(s *ast.IfStmt, rest []ast.Stmt, e *env, ind int, k cont) str
 		default:
 			elseList = []ast.Stmt{el}
 		}
+	}
+	// `a && b` / `a || b` whose right operand can panic (an index, a division, a call) is evaluated as Go does: b only when a
+	// does not decide. The statement is the nested `if` that says so — the form a programmer would write by hand:
+	//   if a && b { X } else { Y }  ≡  if a { if b { X } else { Y } } else { Y }      if a || b { X } else { Y }  ≡  if a { X } else { if b { X } else { Y } }
+	if be, ok := unparen(s.Cond).(*ast.BinaryExpr); ok && (be.Op == token.LAND || be.Op == token.LOR) && f.canPanic(be.Y, e) {
+		var elseBlk *ast.BlockStmt
+		if s.Else != nil {
+			if eb, isBlk := s.Else.(*ast.BlockStmt); isBlk {
+				elseBlk = eb
+			} else {
+				elseBlk = &ast.BlockStmt{Lbrace: s.Else.Pos(), List: []ast.Stmt{s.Else}, Rbrace: s.Else.End()}
+			}
+		}
+		inner := &ast.IfStmt{If: be.Y.Pos(), Cond: be.Y, Body: s.Body}
+		if elseBlk != nil {
+			inner.Else = elseBlk
+		}
+		outer := &ast.IfStmt{If: s.If, Cond: be.X}
+		if be.Op == token.LAND {
+			outer.Body = &ast.BlockStmt{Lbrace: s.Body.Lbrace, List: []ast.Stmt{inner}, Rbrace: s.Body.Rbrace}
+			if elseBlk != nil {
+				outer.Else = elseBlk
+			}
+		} else {
+			outer.Body = s.Body
+			outer.Else = &ast.BlockStmt{Lbrace: s.Body.Lbrace, List: []ast.Stmt{inner}, Rbrace: s.Body.Rbrace}
+		}
+		return f.ifStmt(outer, rest, e, ind, k)
 	}
 	c := f.ifCond(s.Cond, e)
 	var b strings.Builder
@@ -1286,14 +1346,35 @@ func (f *fn) rangeStmt(s *ast.RangeStmt, e *env, ind int, restK cont) string {
 	if len(carried) == 0 {
 		sigma = "Unit"
 	}
-	b.WriteString(ln(ind, fmt.Sprintf("let _body : Int → %s → %s → R (Ctl %s %s) := fun %s %s _s => do", atomProd(elem.lean()), atomProd(sigma), atom(sigma), atom(f.ret.lean()), kl, vl)))
+	// ONE form for the loops over the elements of a slice: `for i, v := range xs { … }` is rendered as the three-clause loop
+	// `for i := 0; i < len(xs); i++ { v := xs[i]; … }` (xs evaluated once, not written by the body: the same elements in the same order)
+	b.WriteString(ln(ind, "let _i0 : Int := 0"))
+	b.WriteString(ln(ind, "let _n : Nat := ((_xs.length : Int) - _i0).toNat"))
+	b.WriteString(ln(ind, fmt.Sprintf("let _body : Int → %s → R (Ctl %s %s) := fun %s _s => do", atomProd(sigma), atom(sigma), atom(f.ret.lean()), kl)))
 	b.WriteString(f.unpack(carried, "_s", e, ind+2))
+	b.WriteString(ln(ind+2, fmt.Sprintf("let %s ← getIdx _xs %s", vl, kl)))
 	f.loops = append(f.loops, carried)
 	b.WriteString(f.block(s.Body.List, inner, ind+2, func(_ *env, ind2 int) string {
 		return ln(ind2, "pure (Ctl.next "+tupleText(leanNames(carried))+")")
 	}))
 	f.loops = f.loops[:len(f.loops)-1]
-	b.WriteString(ln(ind, fmt.Sprintf("let _c ← loopRange _body _xs 0 %s", tupleText(leanNames(carried)))))
+	b.WriteString(ln(ind, fmt.Sprintf("let _c ← loopN _body (1) _n _i0 %s", tupleText(leanNames(carried)))))
 	b.WriteString(f.loopTail(carried, e, ind, "", restK))
 	return b.String()
+}
+
+// evaluating the condition may panic (it binds an operation that can): found by translating it and discarding the result
+func (f *fn) canPanic(c ast.Expr, e *env) (res bool) {
+	saved := f.tmp
+	defer func() {
+		f.tmp = saved
+		if r := recover(); r != nil {
+			if _, ok := r.(unsupported); !ok {
+				panic(r)
+			}
+			res = true // e.g. a nested `||` whose right operand can panic: taken apart when the nested `if` is translated
+		}
+	}()
+	binds, _ := f.prop(c, e)
+	return len(binds) > 0
 }
